@@ -182,6 +182,10 @@ theorem C03_setErr_always_closes : Skeleton.current.seClosesOnEveryPath = true :
     against the regenerated skeleton, statement by statement). -/
 theorem C03_recover_blocks_canonical : Skeleton.current.recoverBlocksCanonical = true := by decide
 
+/-- M2's `callRecover` / `callReturnOk` release the call's closures in the same step: in the source that needs the deferred release to wait for nobody. The release function `registerClosure` returns runs DEFERRED on every exit path of a closure-carrying call; it only locks, deletes and unlocks — no wait, channel operation or select (checked against the regenerated skeleton) — and the lock it takes is not held while a closure body runs. A release that waited for invocations still running (a `WaitGroup`) would keep a call whose link has ended from returning for as long as the peer's handler keeps the closure busy. -/
+theorem C03_closure_release_never_waits :
+    Skeleton.current.clFreeNeverWaits = true ∧ Skeleton.current.clInvokeOutsideLock = true ∧ Skeleton.current.stubClosureFreeDeferred = true := by decide
+
 end Panrpc.Ep
 
 #print axioms Panrpc.Ep.C03_read_failure_reaches_setErr
@@ -200,3 +204,4 @@ end Panrpc.Ep
 #print axioms Panrpc.Ep.C03_every_inflight_call_returns
 #print axioms Panrpc.Ep.C03_setErr_always_closes
 #print axioms Panrpc.Ep.C03_recover_blocks_canonical
+#print axioms Panrpc.Ep.C03_closure_release_never_waits
